@@ -9,20 +9,8 @@ import Mrm.Proofs.NoCompleted
 
 namespace Mrm
 
-theorem wfRO_unpack {d : Xml} (h : WfRO d = true) :
-    ∃ rc, rcOf d = some rc ∧ WfKids "story" rc.kids = true ∧ WfItems rc.kids := by
-  unfold WfRO at h
-  split at h
-  · cases h
-  · rename_i rc hrc
-    simp only [Bool.and_eq_true, List.all_eq_true] at h
-    refine ⟨rc, hrc, h.1, ?_⟩
-    intro s hs ht
-    have := h.2 s hs
-    simp only [Bool.or_eq_true, bne_iff_ne, ne_eq] at this
-    rcases this with h' | h'
-    · exact absurd ht h'
-    · exact h'
+theorem wfRO_unpack {d : Xml} (h : WfRO d = true) : ∃ rc, rcOf d = some rc :=
+  Option.isSome_iff_exists.mp h
 
 theorem shaped_unpack {k : Kind} {m : Xml} (h : shaped k m = true) :
     msgIdExc m = none ∧ ∃ base, m.find k.baseTag = some base := by
@@ -35,7 +23,7 @@ theorem shaped_unpack {k : Kind} {m : Xml} (h : shaped k m = true) :
 
 /-- the merges on the `roCreate` children never produce a built-in exception on a well-formed
     running order and a schema-shaped message -/
-theorem nx_mergeRc (k : Kind) (rc base m : Xml) (hw : WfKids "story" rc.kids = true) (hi : WfItems rc.kids)
+theorem nx_mergeRc (k : Kind) (rc base m : Xml)
     (ht : storiesExc rc = none) (hb : m.find k.baseTag = some base) (hs : shaped k m = true) :
     NX (mergeRc k rc base none) := by
   unfold shaped at hs
@@ -65,33 +53,33 @@ theorem nx_mergeRc (k : Kind) (rc base m : Xml) (hw : WfKids "story" rc.kids = t
           exact ⟨base.kids[i], by simp [hlt]⟩
       obtain ⟨i, hfi, b, hget⟩ := this
       simp only [convertStorySend, hfi, hget]
-      rw [findChildId_ok "story" rc.kids _ hw]
+      rw [findChildId_ok "story" rc.kids _]
       split
       · rename_i heq; cases heq
       · exact nx_ok _ _
       · exact nx_ok _ _
   case MetaDataReplace => exact nx_ok _ _
   case StoryAppend => exact nx_ok _ _
-  case StoryDelete => exact nx_deleteLoop _ _ _ _ _ hw
-  case ItemDelete => exact nx_inStory _ _ _ hw hi (fun items hit => nx_deleteLoop _ _ _ _ _ hit)
+  case StoryDelete => exact nx_deleteLoop _ _ _ _ _
+  case ItemDelete => exact nx_inStory _ _ _ (fun items => nx_deleteLoop _ _ _ _ _)
   case StoryInsert =>
     split
-    · rename_i e h; exact nx_of_merge (findRequired_err hw h)
+    · rename_i e h; exact nx_of_merge (findRequired_err h)
     · simp only [ht]; exact nx_insertDedup _ _ _ _ _
-  case ItemInsert => exact nx_inStory _ _ _ hw hi (fun items hit => nx_insertBefore _ _ _ _ hit)
+  case ItemInsert => exact nx_inStory _ _ _ (fun items => nx_insertBefore _ _ _ _)
   case StoryMove =>
     split
     · exact nx_raise _ _
     · split
-      · rename_i e h; exact nx_of_merge (findTarget_err hw h)
+      · rename_i e h; exact nx_of_merge (findTarget_err h)
       · split
-        · rename_i e h; exact nx_of_merge (findRequired_err hw h)
+        · rename_i e h; exact nx_of_merge (findRequired_err h)
         · split <;> exact nx_ok _ _
   case ItemMoveMultiple =>
     split
     · exact nx_raise _ _
-    · apply nx_inStory _ _ _ hw hi
-      intro items hit
+    · apply nx_inStory _ _ _
+      intro items
       simp only at hs2
       cases hl : (idTexts base "itemID").getLast? with
       | none =>
@@ -99,65 +87,62 @@ theorem nx_mergeRc (k : Kind) (rc base m : Xml) (hw : WfKids "story" rc.kids = t
         rw [List.getLast?_eq_none_iff] at hl
         simp [idTexts] at hl
         simp [hl] at hs2
-      | some t => exact nx_moveMany _ _ _ _ hit
+      | some t => exact nx_moveMany _ _ _ _
   case StoryReplace =>
     split
-    · rename_i e h; exact nx_of_merge (findRequired_err hw h)
+    · rename_i e h; exact nx_of_merge (findRequired_err h)
     · split
       · exact nx_raise _ _
       · exact nx_ok _ _
   case ItemReplace =>
-    apply nx_inStory _ _ _ hw hi
-    intro items hit
+    apply nx_inStory _ _ _
+    intro items
     split
-    · rename_i e h; exact nx_of_merge (findRequired_err hit h)
+    · rename_i e h; exact nx_of_merge (findRequired_err h)
     · exact nx_ok _ _
   case ReadyToAir => exact nx_ok _ _
   case EAStoryReplace =>
     split
-    · rename_i e h; exact nx_of_merge (findRequired_err hw h)
+    · rename_i e h; exact nx_of_merge (findRequired_err h)
     · exact nx_ok _ _
   case EAItemReplace =>
-    apply nx_inStory _ _ _ hw hi
-    intro items hit
+    apply nx_inStory _ _ _
+    intro items
     split
-    · rename_i e h; exact nx_of_merge (findRequired_err hit h)
+    · rename_i e h; exact nx_of_merge (findRequired_err h)
     · exact nx_ok _ _
-  case EAStoryDelete => exact nx_deleteLoop _ _ _ _ _ hw
+  case EAStoryDelete => exact nx_deleteLoop _ _ _ _ _
   case EAItemDelete =>
-    rw [findChildId_ok "story" rc.kids _ hw]
+    rw [findChildId_ok "story" rc.kids _]
     cases hl : locate "story" rc.kids (elemId (base.find "element_target") "storyID") with
     | none => exact nx_ok _ _
     | some k =>
       obtain ⟨key, _, hk, hc, _⟩ := locate_some hl
       apply nx_inStoryAt _ _ _ hk
       apply nx_deleteLoop
-      apply hi _ (List.getElem_mem hk)
-      simp only [isChild, Bool.and_eq_true, beq_iff_eq] at hc
-      exact hc.1
   case EAStoryInsert =>
     split
-    · rename_i e h; exact nx_of_merge (findTarget_err hw h)
+    · rename_i e h; exact nx_of_merge (findTarget_err h)
     · simp only [ht]; exact nx_insertDedup _ _ _ _ _
-  case EAItemInsert => exact nx_inStory _ _ _ hw hi (fun items hit => nx_insertBefore _ _ _ _ hit)
+  case EAItemInsert => exact nx_inStory _ _ _ (fun items => nx_insertBefore _ _ _ _)
   case EAStorySwap =>
     simp only at hs2
     cases hsrc : base.find "element_source" with
     | none => simp [hsrc] at hs2
     | some src =>
       simp only [hsrc, Option.map_some, Option.getD_some, beq_iff_eq] at hs2 ⊢
-      exact nx_swapTwo _ _ _ hw (by simpa [idTexts] using hs2)
+      exact nx_swapTwo _ _ _ (by simpa [idTexts] using hs2)
   case EAItemSwap =>
-    apply nx_inStory _ _ _ hw hi
-    intro items hit
+    apply nx_inStory _ _ _
+    intro items
     simp only at hs2
     cases hsrc : base.find "element_source" with
     | none => simp [hsrc] at hs2
     | some src =>
       simp only [hsrc, Option.map_some, Option.getD_some, beq_iff_eq] at hs2 ⊢
-      exact nx_swapTwo _ _ _ hit (by simpa [idTexts] using hs2)
-  case EAStoryMove => exact nx_moveMany _ _ _ _ hw
-  case EAItemMove => exact nx_inStory _ _ _ hw hi (fun items hit => nx_moveMany _ _ _ _ hit)
+      exact nx_swapTwo _ _ _ (by simpa [idTexts] using hs2)
+  case EAStoryMove => exact nx_moveMany _ _ _ _
+  case EAItemMove => exact nx_inStory _ _ _ (fun items => nx_moveMany _ _ _ _)
   case RunningOrder => exact nx_ok _ _
   case RunningOrderReplace => exact nx_ok _ _
   case RunningOrderEnd => exact nx_ok _ _
@@ -170,7 +155,7 @@ theorem C12_add (i : MergeInput) (h : DomC12 i = true) : holdsC12 i (addK i.k i.
   unfold DomC12 at h
   simp only [Bool.and_eq_true] at h
   obtain ⟨⟨hwf, htm⟩, hsh⟩ := h
-  obtain ⟨rc, hrc, hw, hi⟩ := wfRO_unpack hwf
+  obtain ⟨rc, hrc⟩ := wfRO_unpack hwf
   obtain ⟨hmid, base, hb⟩ := shaped_unpack hsh
   have ht : storiesExc rc = none := by
     unfold TimingOk at htm; simp only [hrc] at htm; simpa using htm
@@ -180,7 +165,7 @@ theorem C12_add (i : MergeInput) (h : DomC12 i = true) : holdsC12 i (addK i.k i.
   · have hc' : completed i.d = false := by simpa using hc
     by_cases hk : i.k.editsRc = true
     · rw [addK_editsRc i.k i.d i.m rc base hk hc' hrc hb, hmid]
-      have := nx_mergeRc i.k rc base i.m hw hi ht hb hsh
+      have := nx_mergeRc i.k rc base i.m ht hb hsh
       split
       · rename_i x hx; exact absurd hx (this x)
       · rfl
